@@ -309,6 +309,23 @@ def run_coro(coro):
     return asyncio.run(coro)
 
 
+def inner_function(outer, name):
+    """The function `name` that `outer` defines in its body (one without free variables of `outer`), so that it
+    can be put under its own contract.  Natively: built from the nested code object of the current tree."""
+    import types
+    for c in outer.__code__.co_consts:
+        if isinstance(c, types.CodeType) and c.co_name == name:
+            if c.co_freevars:
+                raise ValueError(f"{name} uses variables of {outer.__qualname__}")
+            return types.FunctionType(c, outer.__globals__, name)
+    raise LookupError(f"{outer.__qualname__} defines no function {name}")
+
+
+def inner_name(outer, name):
+    """The key under which subst={...} replaces the function `name` defined inside `outer` by its contract."""
+    return f"{outer.__module__}:{outer.__qualname__}.<locals>.{name}"
+
+
 def set_closure(fn, name, value):
     """Set a free variable (closure cell) of a function."""
     i = fn.__code__.co_freevars.index(name)
